@@ -123,7 +123,7 @@ class World(object):
         points = [i for i, s in enumerate(spec) if s["kind"] == "point"]
         ns = {}
         for i in points:
-            ns["p%d" % i] = RegistryPoint(multi_output=spec[i].get("multi", False))
+            ns["p%d" % i] = RegistryPoint(multi_output=spec[i].get("multi", False), prio=spec[i].get("prio", 0))
         self.specset = type("S_%s" % tag, (SpecSet,), ns) if points else None
         for i in points:
             self.comps[i] = getattr(self.specset, "p%d" % i)
@@ -361,7 +361,7 @@ def gen_spec(rng, n, fault_rate=0.25, with_points=True, with_ignore=False, seede
         if with_points and impls and r < 0.12:
             k = rng.randint(1, min(3, len(impls)))
             chosen = sorted(rng.sample(impls, k))
-            s.update(kind="point", body="p", items=[("g", chosen)])
+            s.update(kind="point", body="p", items=[("g", chosen)], prio=rng.choice([0, 0, 1, 2, 5]))
             for j in chosen:
                 spec[j]["impl_of"] = cid
                 spec[j]["claimed"] = True
